@@ -31,7 +31,7 @@ func SessionC10(t *tape.Tape) *core.RunResult {
 
 	var last posCmd
 	have := false
-	nCmds := t.Range(2, 15)
+	nCmds := t.Range(2, core.Scale(15, 40))
 	judged := 0
 	kinds := map[string]int{}
 	finish := func() *core.RunResult {
